@@ -42,6 +42,8 @@ class Run:
         self.notes = []
         self.crashed = 0
         self.pending_store = None
+        self.pending_fifo = []
+        self.racing_acked = []
         self.wal_started_this_life = False
         self.compacted = False
 
@@ -75,7 +77,9 @@ class Run:
             if not ln:
                 continue
             if ln == "st_inserted":
-                if self.pending_store:
+                if self.pending_fifo:
+                    self.tokens.append(self.pending_fifo.pop(0))
+                elif self.pending_store:
                     self.tokens.append(self.pending_store)
                     self.pending_store = None
                 else:
@@ -208,6 +212,20 @@ class Run:
                         self.quiesce(); self.drain_trace()
                         if self.maybe and self.pending_store is None:
                             self.acked.append(self.maybe.pop())
+                    elif op[0] == "SQ":
+                        # STORE immediately followed by a QUERY, without waiting for the background flush:
+                        # reads race with rotations and segment writes (no model prediction for the racing read)
+                        self.k += 1
+                        k = self.k
+                        self.pending_fifo.append(f"S{k}.{op[2]}.{op[1]}")
+                        r = self.eng.cmd(f'STORE {tname(op[1])} FOR {cname(op[2])} PAYLOAD {{"k": {k}}}')
+                        if '"status":200' in r.get("out", ""):
+                            self.racing_acked.append((k, op[1], op[2]))
+                        self.eng.rows(f"QUERY {tname(op[1])} RETURN [k]")
+                    elif op[0] == "SETTLE":
+                        self.quiesce(); self.eng.cmd("!sleep 300"); self.quiesce(); self.drain_trace()
+                        self.acked += self.racing_acked
+                        self.racing_acked = []
                     elif op[0] == "F":
                         self.tokens.append("F")
                         self.eng.cmd("FLUSH")
